@@ -369,7 +369,12 @@ Fixpoint parse (c : con) (cx : ctx) (p : path) (s : istream) {struct c} : res (v
   | CHex c' =>
       let* (v, s') := parse c' cx p s in
       match v with
-      | VInt _ | VBool _ | VEnum _ _ => let* _ := sizeof c' cx p in Ok (v, s')
+      | VInt _ | VBool _ =>
+          (* the display width comes from sizeof; SizeofError falls back to the width of the value *)
+          match sizeof c' cx p with
+          | Ok _ | Err ESizeof _ => Ok (v, s')
+          | Err e q => Err e q
+          end
       | _ => Ok (v, s')
       end
   | CHexDump c' => parse c' cx p s
